@@ -110,7 +110,7 @@ class InterpProp(Prop):
         if payload.get('history'):
             sc = chart_from_json(payload['history']['base'])
             gen.warm(sc)
-            gen.apply_edits(sc, payload['history']['edits'])
+            gen.apply_edits(sc, payload['history']['edits'], check=True)
             payload['charts'] = [ChartEnc(sc).json]
             return {'charts': [sc]}
         charts = [chart_from_json(j) for j in payload['charts']]
@@ -211,6 +211,11 @@ class InterpProp(Prop):
             bad = gen.construction_faults(case.payload['construction_spec'])
             if bad:
                 res.violations.append('the statechart executed is not the one declared: %s' % bad[0])
+                return
+        for c0 in case.aux.get('charts', []):
+            if getattr(c0, '_vp_edit_error', None):
+                res.violations.append('while the statechart was edited through the API (a valid edit of a valid statechart): %s'
+                                      % c0._vp_edit_error)
                 return
         sc = case.aux['run_charts'][0]
         trans = list(sc.transitions)
